@@ -17,15 +17,33 @@ RULE = ("cases = parameterisations of forest / De Moor / Hendrix / Mirjalili acc
         "other cost / distribution parameters (results must not depend on what was built or traced before). evaluations = parameterisations; n_obs = table entries / triples judged; distinct = distinct "
         "(problem, parameter class, size class).")
 ASSUMPTIONS = ["vf.refproblems (pure Python / scipy closed forms, written from the docstrings) is the documented model",
-               "64-bit mode is enabled before the problem is built (float32 construction is C20's concern)",
+               "64-bit mode is enabled before the problem is built, except in the nine no_x64 parameterisations (all-integer structure only)",
                "sizes are capped; larger parameterisations are not explored"]
 MIN_DECIDING = {"quick": 30, "thorough": 250}
 SHARD_TIMEOUT = {"quick": 2400, "thorough": 12000}
 TARGET_SHARDS = {"quick": 64, "thorough": 128}
 
 
+# bounds at which float32 arithmetic (64-bit mode off, the state a problem is built in before any solver exists)
+# stops being exact for some formulations; the structure checked here is all-integer, so it must hold there too
+NO_X64 = [
+    ("de_moor", dict(max_useful_life=1, lead_time=1, max_order_quantity=41, max_demand=3)),
+    ("de_moor", dict(max_useful_life=1, lead_time=1, max_order_quantity=47, max_demand=2)),
+    ("de_moor", dict(max_useful_life=1, lead_time=2, max_order_quantity=55, max_demand=1)),
+    ("de_moor", dict(max_useful_life=2, lead_time=1, max_order_quantity=4, max_demand=10)),
+    ("hendrix", dict(max_useful_life=1, max_order_quantity_a=41, max_order_quantity_b=1)),
+    ("hendrix", dict(max_useful_life=2, max_order_quantity_a=3, max_order_quantity_b=3)),
+    ("mirjalili", dict(max_useful_life=1, max_order_quantity=61, max_demand=2,
+                       useful_life_at_arrival_distribution_c_0=[], useful_life_at_arrival_distribution_c_1=[])),
+    ("mirjalili", dict(max_useful_life=2, max_order_quantity=41, max_demand=1,
+                       useful_life_at_arrival_distribution_c_0=[0.5], useful_life_at_arrival_distribution_c_1=[0.1])),
+    ("forest", dict(S=97, r1=4.0, r2=2.0, p=0.1)),
+]
+
+
 def gen_cases(seed, tier):
-    return shipgen.cases(seed, tier, 14)
+    cases = shipgen.cases(seed, tier, 14)
+    return cases + [dict(name=nm, params=p, devices=1, no_x64=True) for nm, p in NO_X64]
 
 
 def run_case(case):
